@@ -286,6 +286,25 @@ Proof.
     enter_cases H; injection H as <- <-; cbn; rewrite ?Hp; split; auto.
 Qed.
 
+(* leaving terminate_child: back to the running loop, marked timed out if that was the reason *)
+Lemma ucore_leave tbl cfg s ae s' outs x :
+  ucore tbl cfg s ae = Ok (s', outs) -> ph s = PTerminating x ->
+  ph s' = PTerminating x \/ (ph s' = PRunning /\ (x = TTimeout -> timed_out s' = true)).
+Proof.
+  intros H Hp. unfold ucore in H. rewrite Hp in H.
+  destruct ae as [dt|wt| | |ok| |q].
+  - injection H as <- <-. left. exact Hp.
+  - injection H as <- <-. left. exact Hp.
+  - injection H as <- <-. right. split; [reflexivity|]. intros ->. reflexivity.
+  - injection H as <- <-. left. exact Hp.
+  - injection H as <- <-. right. split; [reflexivity|]. intros ->. reflexivity.
+  - injection H as <- <-. left. exact Hp.
+  - destruct q as [| |sr| |];
+      try (arm_case H Earm; injection H as <- <-; left; exact Hp);
+      try (injection H as <- <-; left; exact Hp).
+    injection H as <- <-. right. split; [reflexivity|]. intros ->. reflexivity.
+Qed.
+
 (* ---- the same facts for [ustep] on concrete events *)
 Lemma ustep_phase tbl cfg s e s' outs :
   ustep tbl cfg s e = Ok (s', outs) ->
